@@ -33,6 +33,8 @@ pub struct PathReport {
     pub observations: Vec<String>,
     /// cross-check script (pc ∧ ¬goal) when requested
     pub script: Option<String>,
+    /// enumerated choices (lax node identifiers) made on this path
+    pub choices: Vec<usize>,
 }
 
 pub struct Job {
@@ -129,6 +131,7 @@ pub fn decide(d: Decide) -> PathReport {
         outcome_class,
         observations: vec![],
         script: None,
+        choices: choices(),
     };
     // --- the deciding step: is pc ∧ ¬goal satisfiable?
     let neg = tm::not(goal);
@@ -147,13 +150,17 @@ pub fn decide(d: Decide) -> PathReport {
                 Ok(pv) => pv,
                 Err(msg) => PV::Panic(msg),
             };
-            let goal_v = (d.oracle)(&inputs_v, &nat);
-            let holds_natively = tm::st(|s| s.eval(goal_v, &vm)) != 0;
             let symbolic = out.eval(&vm);
+            // adversarial backends (C20): the violating run is the real generic code on the conforming backend
+            // whose open choices are fixed by the model, i.e. this path's outcome evaluated under the model
+            let judged = if d.compare_native { &nat } else { &symbolic };
+            let goal_v = (d.oracle)(&inputs_v, judged);
+            let holds_natively = tm::st(|s| s.eval(goal_v, &vm)) != 0;
             // restore memoisation for the path model
             tm::st(|s| s.new_stamp());
             if !holds_natively {
-                rep.verdict = Verdict::Violation { what: "solver counterexample reproduced on the native build".into(), model: vm, inputs: inputs_v.show(), native: nat.show() };
+                let what = if d.compare_native { "solver counterexample reproduced on the native build".to_string() } else { format!("solver counterexample: on a conforming backend resolving the open choices as in the model the real code returns {} (VecKind returns the native outcome)", symbolic.show()) };
+                rep.verdict = Verdict::Violation { what, model: vm, inputs: inputs_v.show(), native: nat.show() };
             } else {
                 rep.verdict = Verdict::Mismatch { what: "solver counterexample does not reproduce natively".into(), model: vm, inputs: inputs_v.show(), native: nat.show(), symbolic: symbolic.show() };
             }
@@ -214,7 +221,7 @@ pub fn run_jobs(jobs: Vec<Job>, threads: usize, deadline: Option<Instant>) -> Ve
 
 pub struct Summary {
     pub json: J,
-    pub violations: Vec<(String, Verdict)>,
+    pub violations: Vec<(String, Verdict, Vec<usize>)>,
     pub mismatches: Vec<(String, Verdict)>,
     pub engine_errors: Vec<String>,
     pub unknowns: u64,
@@ -274,7 +281,7 @@ pub fn summarise(results: &[JobResult], functions: &[&str], bounds: &str, cfg_no
                 Verdict::Unknown => unknowns += 1,
                 v @ Verdict::Violation { .. } => {
                     jv += 1;
-                    violations.push((r.name.clone(), v.clone()))
+                    violations.push((r.name.clone(), v.clone(), p.choices.clone()))
                 }
                 v @ Verdict::Mismatch { .. } => mismatches.push((r.name.clone(), v.clone())),
             }
@@ -353,7 +360,6 @@ macro_rules! case {
 }
 
 pub fn case_job(case: Case, cfg: Cfg, budget: Duration, mandatory: bool) -> Job {
-    let compare = !cfg.adversarial();
     Job {
         name: case.name.clone(),
         cfg,
@@ -370,8 +376,29 @@ pub fn case_job(case: Case, cfg: Cfg, budget: Duration, mandatory: bool) -> Job 
                 run_nat: &|i| nat(i),
                 oracle: &|i, o| oracle(i, o),
                 obligations: case.obligations,
-                compare_native: compare,
+                // adversarial backends resolve the open choices differently from VecKind on purpose
+                compare_native: !crate::explore::cfg().adversarial(),
             })
         }),
     }
+}
+
+/// split a job whose generator enumerates identifiers with `choose(n)` into n^depth jobs, one per
+/// prefix of the first `depth` choices, so that the enumeration runs on all cores
+pub fn split_by_choices(job: Job, n: usize, depth: usize) -> Vec<Job> {
+    if n <= 1 || depth == 0 {
+        return vec![job];
+    }
+    let mut prefixes: Vec<Vec<usize>> = vec![vec![]];
+    for _ in 0..depth {
+        prefixes = prefixes.into_iter().flat_map(|p| (0..n).map(move |v| { let mut q = p.clone(); q.push(v); q })).collect();
+    }
+    prefixes
+        .into_iter()
+        .map(|p| {
+            let mut cfg = job.cfg.clone();
+            cfg.pin_choices = Some(Arc::new(p.clone()));
+            Job { name: format!("{} ids{:?}", job.name, p), cfg, budget: job.budget, mandatory: job.mandatory, body: job.body.clone() }
+        })
+        .collect()
 }
